@@ -51,9 +51,6 @@ func (c *Ctx) errRootsOf(f *ssa.Function) []*ssa.Function {
 
 func (c *Ctx) errHandledOnPaths(f *ssa.Function, call ssa.CallInstruction) (bool, string) {
 	roots := c.errRootsOf(f)
-	if len(roots) == 1 && roots[0] == f {
-		return false, "" // nothing to add to the local argument
-	}
 	seen := 0
 	for _, r := range roots {
 		paths, trunc := c.Paths(r, PXConfig{Opaque: c.stdOpaque(), MaxVisits: 3, MaxDepth: 4, MaxPaths: 100000})
